@@ -108,6 +108,9 @@ def seqOp (cur : List Int) (op : String) (args : List Int) (kind : String) : Opt
   | "take", [n] => some (seqUpd cur (Coll.lTake cur n))
   | "tail", [n] => some (seqUpd cur (Coll.lTail cur n))
   | "append", xs => some (cur ++ xs, showSeq (cur ++ xs))
+  | "appendl", xs => some (xs ++ cur, showSeq (xs ++ cur))
+  | "append2", [x, y] => some (cur ++ [x] ++ [y], showSeq (cur ++ [x] ++ [y]))
+  | "cons2", [x, y] => some (x :: y :: cur, showSeq (x :: y :: cur))
   | "reverse", [] => some (cur.reverse, showSeq cur.reverse)
   | "cons", [x] => some (x :: cur, showSeq (x :: cur))
   | "set", [i, x] => some (seqUpd cur (if kind == "b" then Coll.bSet cur i x else Coll.vSet cur i x))
@@ -118,8 +121,11 @@ def seqOp (cur : List Int) (op : String) (args : List Int) (kind : String) : Opt
         | .err => .err))
   | _, _ => none
 
-def collLine (s : DState) (reg op : String) (args : List String) : Option (DState × String) := do
+def collLine (s : DState) (reg op0 : String) (args : List String) : Option (DState × String) := do
   let a ← ints args
+  -- `union_n`, `union_let`, … : the same operation with another ownership pattern of the arguments in the
+  -- Steel program (named and live / let-bound last use / temporary): the model does not depend on it
+  let op := (op0.splitOn "_").headD op0
   match reg with
   | "cm" =>
       match op, a with
@@ -128,6 +134,20 @@ def collLine (s : DState) (reg op : String) (args : List String) : Option (DStat
           let m := Coll.mOfList kvs
           pure ({ s with cm := m }, showMap m)
       | "insert", [k, v] => let m := Coll.mInsert s.cm k v; pure ({ s with cm := m }, showMap m)
+      | "insert2", [k, v, k2, v2] =>
+          let m := Coll.mInsert (Coll.mInsert s.cm k v) k2 v2; pure ({ s with cm := m }, showMap m)
+      | "insrem", [k, v, k2] =>
+          let m := Coll.mRemove (Coll.mInsert s.cm k v) k2; pure ({ s with cm := m }, showMap m)
+      | "union", xs => do
+          let kvs ← pairUpInt xs
+          let m := Coll.mUnion s.cm (Coll.mOfList kvs); pure ({ s with cm := m }, showMap m)
+      | "unionr", xs => do
+          let kvs ← pairUpInt xs
+          let m := Coll.mUnion (Coll.mOfList kvs) s.cm; pure ({ s with cm := m }, showMap m)
+      | "uniontt", n :: xs => do
+          let l ← pairUpInt (xs.take n.toNat)
+          let r ← pairUpInt (xs.drop n.toNat)
+          let m := Coll.mUnion (Coll.mOfList l) (Coll.mOfList r); pure ({ s with cm := m }, showMap m)
       | "remove", [k] => let m := Coll.mRemove s.cm k; pure ({ s with cm := m }, showMap m)
       | "ref", [k] => pure (s, showRes (Coll.mRef s.cm k))
       | "tryget", [k] => pure (s, match Coll.mTryGet s.cm k with | some v => s!"some {v}" | none => "none")
@@ -138,6 +158,12 @@ def collLine (s : DState) (reg op : String) (args : List String) : Option (DStat
       match op, a with
       | "new", xs => let t := Coll.sOfList xs; pure ({ s with cs := t }, showSet t)
       | "insert", [k] => let t := Coll.sInsert s.cs k; pure ({ s with cs := t }, showSet t)
+      | "union", xs => let t := Coll.sUnion s.cs (Coll.sOfList xs); pure ({ s with cs := t }, showSet t)
+      | "unionr", xs => let t := Coll.sUnion (Coll.sOfList xs) s.cs; pure ({ s with cs := t }, showSet t)
+      | "inter", xs => let t := Coll.sInter s.cs (Coll.sOfList xs); pure ({ s with cs := t }, showSet t)
+      | "interr", xs => let t := Coll.sInter (Coll.sOfList xs) s.cs; pure ({ s with cs := t }, showSet t)
+      | "diff", xs => let t := Coll.sSymDiff s.cs (Coll.sOfList xs); pure ({ s with cs := t }, showSet t)
+      | "diffr", xs => let t := Coll.sSymDiff (Coll.sOfList xs) s.cs; pure ({ s with cs := t }, showSet t)
       | "contains", [k] => pure (s, showB (Coll.sContains s.cs k))
       | "len", [] => pure (s, toString (Coll.sLength s.cs))
       | "subset", xs => pure (s, showB (Coll.sSubset s.cs (Coll.sOfList xs)))
